@@ -8,6 +8,7 @@ import (
 	"github.com/aperturerobotics/bifrost/pubsub"
 	"github.com/aperturerobotics/bifrost/pubsub/util/pubmessage"
 	stream_packet "github.com/aperturerobotics/bifrost/stream/packet"
+	"github.com/aperturerobotics/bifrost/util/simhook"
 	"github.com/sirupsen/logrus"
 )
 
@@ -76,6 +77,7 @@ func (s *streamHandler) handlePublish(pkts []*peer.SignedMsg) {
 			continue
 		}
 		chid := pktInner.GetChannel()
+		simhook.Yield("floodsub/handle-publish", chid)
 		s.m.mtx.Lock()
 		_, chOk := s.m.channels[chid]
 		s.m.mtx.Unlock()
@@ -89,6 +91,7 @@ func (s *streamHandler) handlePublish(pkts []*peer.SignedMsg) {
 
 // handleSubscriptions processes subscription packet data
 func (s *streamHandler) handleSubscriptions(subs []*SubscriptionOpts) {
+	simhook.Yield("floodsub/handle-subscriptions", s.tpl.PeerID.String())
 	s.m.mtx.Lock()
 	defer s.m.mtx.Unlock()
 
